@@ -9,7 +9,7 @@ C03 - what is documented in each namespace is what Python defines there.  Claime
   R03.7 the walk descends into every block executed in addition to the body (loop/try else, finally)
   R03.8 sibling variable handlers: an attribute found without a kind gets one
   R03.9 every name-binding target form of an assignment is taken apart (Tuple, List, Starred, nested)
-  R03.10 x = wrapper(x) changes a kind only for the same name; no alias for a documented name
+  R03.10 x = wrapper(x) changes a kind only for the same name and whatever kind the function had (the last wrapper wins); no alias for a documented name
   R03.11 the pending attribute-docstring target is cleared when a property has been handled
   R03.12 class-level assignments: an inherited non-attribute vetoes the variable only when the value wraps it; binding `__doc__` sets the docstring;
          a name re-bound by unpacking forgets the value of its earlier assignment
